@@ -376,12 +376,16 @@ func resolvePkgObjects(ctx *Context, f *ast.File) {
 	ctx.PkgObjects = make(map[*types.PkgName]string, len(f.Imports))
 
 	for _, spec := range f.Imports {
+		// An import that failed to type-check (invalid import path)
+		// has no package name object.
 		if spec.Name != nil {
-			obj := ctx.TypesInfo.ObjectOf(spec.Name)
-			ctx.PkgObjects[obj.(*types.PkgName)] = spec.Name.Name
+			if obj, ok := ctx.TypesInfo.ObjectOf(spec.Name).(*types.PkgName); ok {
+				ctx.PkgObjects[obj] = spec.Name.Name
+			}
 		} else {
-			obj := ctx.TypesInfo.Implicits[spec]
-			ctx.PkgObjects[obj.(*types.PkgName)] = obj.Name()
+			if obj, ok := ctx.TypesInfo.Implicits[spec].(*types.PkgName); ok {
+				ctx.PkgObjects[obj] = obj.Name()
+			}
 		}
 	}
 }
